@@ -112,7 +112,9 @@ def compare(case, out, model):
     f = seeds_impl_flat(case, out)
     if f is None:
         return "seed derivation panicked: %s" % json.dumps(out)[:300]
-    model, uni = model[:-5], model[-5:]
+    model, uni, extra2 = model[:-7], model[-7:-2], model[-2:]
+    if extra2 != [out["reference"][3], 1]:
+        return "Base.Rng steps / prev_state: 4th output through `steps` %s (rand: %s), prev_state(next_state) back at the seed state: %s" % (extra2[0], out["reference"][3], extra2[1])
     if out["uniforms"] != uni:
         return ("Base.Rng uniform53 / uniform24 / inject_state disagree with rand's StandardUniform conversions or the harness's "
                 "injection state: implementation %s, model %s" % (out["uniforms"], uni))
